@@ -27,7 +27,9 @@ REQUIRED_THEOREMS = ['C03_energy_grad', 'C03_energy_grad_prbm', 'C03_logZ_grad',
                      # layout, call forms, default branch of pi_grad
                      'C03_layout', 'C03_layout_prbm', 'C03_exact_gradient_positive_flat', 'C03_exact_gradient_complex_flat',
                      'C03_exact_gradient_density_flat', 'C03_single_sample', 'C03_single_sample_density', 'C03_bases_none',
-                     'C03_bases_none_density', 'C03_pi_grad_branches_agree', 'C03_pi_grad_branches_differ', 'C03_default_dictionary_ok']
+                     'C03_bases_none_density', 'C03_pi_grad_branches_agree', 'C03_pi_grad_branches_differ', 'C03_default_dictionary_ok',
+                     # extension round X2: the gradient model calls the complex kernel as coded at HEAD (C.invH, C.csigmoidH)
+                     'C03_rot_comp_textbook', 'C03_pi_grad_sigmoid']
 RULE = ("case = (state kind, n, h[, a], parameters = scale*N(0,1) with all biases non-zero (the phase network's auxiliary bias of the mixed state is "
         "non-zero in about half of the cases, exactly zero in the others), scale in {0.3,0.7,1.2} plus saturated rows at scale 3 and 10, dataset of random "
         "basis states with repeats, per-sample basis strings over {X,Y,Z} incl. all-Z rows and mixed rows in one batch); regime all-strings: one dataset "
@@ -43,6 +45,10 @@ RULE = ("case = (state kind, n, h[, a], parameters = scale*N(0,1) with all biase
         "sizes and `gpu` / `zero_weights`, `reduce` of effective_energy_gradient (both values), `eta` / `expand` of gamma_grad, `phase` / `expand` of "
         "pi_grad, `k` of compute_batch_gradients (k in 0..3), `epochs` / `pos_batch_size` / `neg_batch_size` / `k` of fit (any positional prefix of the "
         "documented order); the model is told the VALUE; "
+        "regime huge-amplitude (extension round X2, complex state): 24..28 hidden units with biases in 20..30, tiny couplings, so that every amplitude "
+        "|psi| is just below the overflow threshold of e^{-E} while |Upsi|^2 of the constructively interfering X rows exceeds 1.8e308 (the textbook "
+        "inverse conj z / |z|^2 would return 0 there); gradient / positive_phase_gradients / rotated_gradient judged against the exact-arithmetic "
+        "expectation evaluated in the log domain and its finite differences; "
         "non-trivial iff the dataset has >= 2 distinct bases with a non-Z letter (complex/mixed) or >= 2 distinct rows (positive); distinct by hash")
 EPS = 1e-8
 TH = {"pos": "C03_exact_gradient_positive(_flat)", "cplx": "C03_exact_gradient_complex(_flat) / C03_nll_is_born_complex",
@@ -162,6 +168,153 @@ def fd_grad(f, p, order, hstep=1e-6):
         e = np.zeros_like(v); e[k] = hstep
         g[k] = (f(unflat(v + e, p, order)) - f(unflat(v - e, p, order))) / (2 * hstep)
     return g
+
+
+# ------------------------------------------------------------------ regime huge-amplitude (extension round, package X2)
+TH_HUGE = "C03_sample_gradient_complex / C03_rot_comp_textbook / C15_invH_eq"
+LOG_SQRT_MAX = 0.5 * float(np.log(np.finfo(float).max))   # |z| above e^354.89: |z|^2 is not a double
+
+
+def egrad_rows(p, V):
+    """rows of d E / d [W, b, c] (parameters() order) for every state of V, written out: E = -(b.v + sum softplus(c + W v))"""
+    W, c = np.asarray(p["W"], dtype=float), np.asarray(p["c"], dtype=float)
+    sg = 1.0 / (1.0 + np.exp(-(V @ W.T + c)))
+    return np.concatenate([-(sg[:, :, None] * V[:, None, :]).reshape(len(V), -1), -V, -sg], axis=1)
+
+
+def logdomain_cplx(am, ph, data, space, D):
+    """exact-arithmetic expectation of ComplexWaveFunction.gradient(samples, bases) (sum over the batch, no negative phase), of the
+    batch loss -sum log |Upsi|^2 and of log |Upsi| per row, evaluated in the LOG DOMAIN: psi is divided by its largest modulus
+    before anything is summed, so no intermediate is larger than 2^(n/2)"""
+    la, lp = -E_rbm(am, space) / 2, -E_rbm(ph, space) / 2
+    m = float(la.max())
+    psi = np.exp(la - m + 1j * lp)
+    Ga, Gp = egrad_rows(am, space), egrad_rows(ph, space)
+    ga, gp, logabs = np.zeros(Ga.shape[1]), np.zeros(Gp.shape[1]), []
+    for s_, b_ in data:
+        uv = dense_K(b_, D)[idx(s_)] * psi
+        U = uv.sum()
+        ga += np.real((uv @ Ga) / U)
+        gp += np.real(1j * (uv @ Gp) / U)
+        logabs.append(float(np.log(np.abs(U))) + m)
+    return ga, gp, np.asarray(logabs)
+
+
+def mk_huge_case(rng):
+    """amplitude network: h in 24..28 hidden biases in 20..30 (every magnitude <= 30), couplings ~1e-3 and visible biases ~1e-2, shifted so that
+    the LARGEST -E over the space is in (709.0, 709.5): e^{-E} (formed by `amplitude`) is still a double, |psi| ~ 1e154, and the rotated
+    amplitude of an outcome 0 on k >= 2 X-rotated sites is ~2^(k/2) |psi|, whose square is not a double"""
+    for _ in range(50):
+        n, h = rng.choice([3, 4]), rng.randint(24, 28)
+        target = rng.uniform(709.0, 709.5)
+        mean = target / h
+        dev = min(2.0, 29.8 - mean)
+        am = {"W": [[rng.gauss(0.0, 1.0) * 1e-3 for _ in range(n)] for _ in range(h)], "b": [rng.choice([-1, 1]) * rng.uniform(0.005, 0.03) for _ in range(n)],
+              "c": [mean + rng.uniform(-dev, dev) for _ in range(h)]}
+        space = np.asarray(qc.all_states(n), dtype=float)
+        shift = (target - float((-E_rbm(am, space)).max())) / h
+        am["c"] = [x + shift for x in am["c"]]
+        ph = qc.rand_rbm_params(rng, n, h, 0.02)
+        ph["c"] = [rng.gauss(0.0, 1.0) for _ in range(h)]
+        ph["b"] = [rng.gauss(0.0, 0.1) for _ in range(n)]
+        top = float((-E_rbm(am, space)).max())
+        if max(am["c"]) >= 30.0 or min(am["c"]) < 20.0 or not (709.0 < top < 709.6):
+            continue
+        # rows: outcome 0 on every X site (constructive interference), one all-Z row, one row with a Y site
+        allx = "X" * n
+        part = "".join("X" if j < 2 else "Z" for j in range(n)); part = "".join(rng.sample(list(part), n))
+        withy = "".join(rng.choice("XYZ") for _ in range(n - 1)) + "Y"; withy = "".join(rng.sample(list(withy), n))
+        rows = [([0] * n, allx), ([0 if ch == "X" else rng.randint(0, 1) for ch in part], part), ([rng.randint(0, 1) for _ in range(n)], "Z" * n),
+                ([0 if ch == "X" else rng.randint(0, 1) for ch in withy], withy)]
+        rng.shuffle(rows)
+        la = logdomain_cplx(am, ph, rows, space, dict_np())[2]
+        if int(np.sum(la > LOG_SQRT_MAX)) >= 2:
+            return {"aseed": af.draw_aseed(rng), "kind": "cplx", "n": n, "h": h, "a": 0, "am": am, "ph": ph, "data": rows, "regime": "huge-amplitude"}
+    raise RuntimeError("huge-amplitude: no case found")
+
+
+def huge_case(ctx, case):
+    """gradient calls that need no partition function (gradient, positive_phase_gradients, rotated_gradient) where |Upsi|^2 is beyond the doubles:
+    property level = exact-arithmetic expectation in the log domain; the model (C.invH as coded at HEAD) must agree with the implementation"""
+    n, h = case["n"], case["h"]
+    ctx.current_case = case
+    A = af.Args(case.get("aseed"))
+    am, ph, data = case["am"], case["ph"], [(list(s), b) for s, b in case["data"]]
+    space = np.asarray(qc.all_states(n), dtype=float)
+    D = dict_np()
+    S, B = tensors(data)
+    want_a, want_p, logabs = logdomain_cplx(am, ph, data, space, D)
+    n_over = int(np.sum(logabs > LOG_SQRT_MAX))
+    ctx.case({k: case[k] for k in ("kind", "n", "h", "am", "ph", "data")}, nontrivial=n_over >= 1,
+             sample={"kind": "cplx", "n": n, "h": h, "N": len(data), "bases": sorted({b for _, b in data}), "log|Upsi|": [round(float(x), 3) for x in logabs]})
+    ctx.count("kind=cplx"); ctx.count(f"n={n}"); ctx.count("regime=huge-amplitude"); ctx.count(f"huge-amplitude/rows with |Upsi|^2 > 1.8e308: {n_over}")
+    try:
+        st = af.make_complex(A, n, h, am, ph)
+        if not af.check_sizes(ctx, st, (n, h), case, A, "cplx/ctor-sizes", TH_CTOR):
+            return
+        with np.errstate(all="ignore"):
+            g = [t.numpy().copy() for t in st.gradient(S, B)]
+            pp = [t.numpy().copy() for t in st.positive_phase_gradients(S, B)]
+            # what the TEXTBOOK inverse conj z / |z|^2 (cplx.inverse before 7038bfb) gives on the implementation's own Upsi (counter only)
+            ups = [unitaries.rotate_psi_inner_prod(st, np.array(list(b_)), torch.tensor([s_], dtype=torch.double), include_extras=True)[0].numpy().ravel()
+                   for s_, b_ in data if any(ch != "Z" for ch in b_)]
+            tb = [np.array([u[0], -u[1]]) / (u[0] * u[0] + u[1] * u[1]) for u in ups]
+        ctx.count(f"huge-amplitude/textbook inverse of Upsi is 0 or non-finite: {sum(1 for t in tb if not np.all(np.isfinite(t)) or np.all(t == 0))} of {len(tb)}")
+        scale = max(1.0, float(np.max(np.abs(want_a))), float(np.max(np.abs(want_p))))
+        for i, (got, want) in enumerate(zip(g, (want_a, want_p))):
+            ok = bool(np.all(np.isfinite(got))) and bool(np.allclose(got, want, rtol=1e-8, atol=1e-8 * scale))
+            ctx.oracle(f"gradient[{i}] finite and == exact-arithmetic (log-domain) gradient of -sum log |Upsi|^2", ok, case,
+                       detail={"impl": np.asarray(got).tolist(), "want": want.tolist(), "log|Upsi|": logabs.tolist()},
+                       sig="cplx/huge-amplitude-gradient", theorem=TH_HUGE)
+        fds = [fd_grad(lambda p: -2.0 * float(logdomain_cplx(p, ph, data, space, D)[2].sum()), am, ORDER_RBM),
+               fd_grad(lambda p: -2.0 * float(logdomain_cplx(am, p, data, space, D)[2].sum()), ph, ORDER_RBM)]
+        for i, (got, d_) in enumerate(zip(g, fds)):
+            tol = 5e-5 * max(1.0, float(np.max(np.abs(d_))))
+            ok = bool(np.all(np.isfinite(got))) and bool(np.all(np.abs(got - d_) <= tol))
+            ctx.oracle(f"gradient[{i}] == d (-sum log |Upsi|^2) / d theta by central differences of the log-domain loss", ok, case,
+                       detail={"maxdiff": float(np.max(np.abs(np.nan_to_num(got) - d_)))}, sig="cplx/huge-amplitude-fd", theorem=TH_HUGE)
+        ctx.oracle("positive_phase == gradient / N", bool(all(np.allclose(x, y / len(data), rtol=1e-12, atol=1e-12 * scale) for x, y in zip(pp, g))), case,
+                   sig="cplx/huge-amplitude-posphase", theorem=TH_SUM["cplx"])
+        # public rotated_gradient(basis, samples) of every rotated row == log-domain expectation of that row
+        for s_, b_ in data:
+            if all(ch == "Z" for ch in b_):
+                continue
+            wa, wp, _ = logdomain_cplx(am, ph, [(s_, b_)], space, D)
+            with np.errstate(all="ignore"):
+                rg = [t.numpy().ravel() for t in st.rotated_gradient(np.array(list(b_)), torch.tensor([s_], dtype=torch.double))]
+            ok = all(bool(np.all(np.isfinite(x))) and np.allclose(x, y, rtol=1e-8, atol=1e-8 * scale) for x, y in zip(rg, (wa, wp)))
+            ctx.oracle("rotated_gradient(basis, sample) finite and == exact-arithmetic (log-domain) value", bool(ok), {**case, "row": [s_, b_]},
+                       sig="cplx/huge-amplitude-rotated-gradient", theorem=TH_HUGE)
+        if ctx.driver is None:
+            return
+        dict_enc = {L: [[[f2b(D[L][r][c].real), f2b(D[L][r][c].imag)] for c in range(2)] for r in range(2)] for L in "XYZ"}
+        samples = [{"bits": s_, "basis": b_} for s_, b_ in data]
+        m = ctx.driver.call("c03.cplx", n=n, h=h, am=qc.pbits(am), ph=qc.pbits(ph), dict=dict_enc, samples=samples)
+        for i in (0, 1):
+            cmp_vec(ctx, f"gradient[{i}] (huge amplitude)", g[i], unbits(m["gradient"][i]), case, "cplx/gradient", TH["cplx"], scale)
+            cmp_vec(ctx, f"positive_phase_gradients[{i}] (huge amplitude)", pp[i], unbits(m["positive_phase"][i]), case, "cplx/posphase", TH["cplx"], scale)
+        mu = np.array([unbits(u) for u in m["upsi"]])
+        with np.errstate(all="ignore"):
+            got_log = np.log(np.hypot(mu[:, 0], mu[:, 1]))
+        ctx.point("log |model Upsi| == log-domain value", "aux", got_log, logabs, case, scale=1.0, rtol=1e-9, atol=1e-9, theorem="C03_upsi_is_dense_amplitude")
+        # the scalar kernel on the model's own Upsi: HEAD's inverse (C.invH, what cplxRotComp calls) against cplx.inverse of the implementation;
+        # the textbook inverse (C.inv) of the same numbers is counted
+        k = ctx.driver.call("c03.kernel", zr=bits(mu[:, 0]), zi=bits(mu[:, 1]), wr=bits(np.ones(len(mu))), wi=bits(np.zeros(len(mu))))
+        from qucumber.utils import cplx as _cplx
+        zt = torch.tensor(np.array([mu[:, 0], mu[:, 1]]), dtype=torch.double)
+        with np.errstate(all="ignore"):
+            inv_impl = _cplx.inverse(zt).numpy()
+            abs_impl = _cplx.absolute_value(zt).numpy()
+        inv_model = np.array([unbits(x) for x in k["invH"]])
+        ctx.point("cplx.inverse(Upsi) == C.invH", "aux", np.r_[inv_impl[0], inv_impl[1]] * np.exp(LOG_SQRT_MAX), np.r_[inv_model[:, 0], inv_model[:, 1]] * np.exp(LOG_SQRT_MAX),
+                  case, scale=1.0, rtol=1e-12, atol=1e-14, theorem="C15_inverse_entry / C15_invH_eq")
+        ctx.point("cplx.absolute_value(Upsi) == C.absH", "aux", abs_impl / np.exp(LOG_SQRT_MAX), unbits(k["absH"]) / np.exp(LOG_SQRT_MAX), case, scale=1.0, rtol=1e-12, atol=1e-14,
+                  theorem="C15_absolute_value_entry / C15_absH_eq")
+        inv_tb = np.array([unbits(x) for x in k["inv"]])
+        bad = sum(1 for r_, la_ in zip(inv_tb, logabs) if la_ > LOG_SQRT_MAX and (not np.all(np.isfinite(r_)) or np.all(r_ == 0)))
+        ctx.count(f"huge-amplitude/model textbook C.inv of Upsi is 0 or non-finite on the overflow rows: {bad} of {n_over}")
+    finally:
+        A.count_into(ctx)
 
 
 # ------------------------------------------------------------------ cases
@@ -383,6 +536,9 @@ def container_forms(ctx, st, kind, case, n, data, S, B, space_t, g, pp, ex, scal
 def one_case(ctx, case):
     """one case; integer options handed over as objects outside every quantifier (np.uint8, 0-d arrays / tensors) and REFUSED by the
     implementation are informational (argforms_a.tolerant, second audit X-1)"""
+    if case.get("regime") == "huge-amplitude":
+        af.tolerant(ctx, huge_case, ctx, case)
+        return
     af.tolerant(ctx, _one_case, ctx, case)
 
 
@@ -817,6 +973,13 @@ def gen_cases(ctx, thorough):
                     sv = [1 if j == jj else rng.randint(0, 1) for j in range(n)]
                     data.append((sv, bs))
                 plan.append({"aseed": af.draw_aseed(rng), "kind": kind, "n": n, "h": h, "a": a, "am": am, "ph": ph, "data": data, "regime": "near-plus"})
+        # huge-amplitude regime (extension round X2): |Upsi|^2 beyond the doubles, see mk_huge_case
+        # (drawn from a COPY of the generator state: seeded by ctx.rng, but the stream every other case is drawn from is what it was before)
+        if kind == "cplx":
+            import random as _random
+            sub = _random.Random(); sub.setstate(rng.getstate())
+            for _ in range(4 if thorough else 1):
+                plan.append(mk_huge_case(sub))
         # one batch with more than 256 distinct bases (group labels beyond one byte)
         if kind == "cplx":
             n = 6
